@@ -117,6 +117,7 @@ class Facts:
         self.repo = None
         self.absorbed = {}    # key -> helper function every call of which was inlined (analysed in its callers)
         self.norm_stats = {}
+        self.controls = {}    # qn -> control function (tu/rule_controls.cpp)
 
     def fn(self, qn, sig=None, required=True, rule="anchor"):
         """Return the unique function with this qualified name (and signature if given)."""
@@ -135,6 +136,12 @@ class Facts:
 
     def fns(self, qn):
         return list(self.by_qn.get(qn, []))
+
+    def control(self, qn, rule):
+        f = self.controls.get("verif_rc::" + qn)
+        if f is None:
+            raise AnalysisBroken(rule, "positive control verif_rc::%s not found (tu/rule_controls.cpp)" % qn)
+        return f
 
     def record(self, qn, required=True, rule="anchor"):
         r = self.records.get(qn)
@@ -160,7 +167,7 @@ def load(repo=None, extra_tus=None, extra_roots=None, use_cache=True, only_tus=N
         raise AnalysisBroken("setup", "extractor %s missing; run tool/build.sh (MANIFEST.setup_cmd)" % EXTRACTOR)
     tus = tu_list(repo) if only_tus is None else list(only_tus)
     inst = os.path.join(VERIF, "tu", "instantiate.cpp")
-    extra = [inst, os.path.join(VERIF, "tu", "normalize_fixtures.cpp")] if only_tus is None else []
+    extra = [inst, os.path.join(VERIF, "tu", "normalize_fixtures.cpp"), os.path.join(VERIF, "tu", "rule_controls.cpp")] if only_tus is None else []
     extra += list(extra_tus or [])
     roots = [repo + "/", os.path.join(VERIF, "tu") + "/"] + list(extra_roots or [])
     t0 = time.time()
@@ -235,5 +242,12 @@ def load(repo=None, extra_tus=None, extra_roots=None, use_cache=True, only_tus=N
         normalize.normalise(facts)
         if only_tus is None:
             normalize.self_check(facts)
+    # positive controls of zero-expected rules (tu/rule_controls.cpp): kept apart from the analysed program
+    for k in [k for k, f in facts.functions.items() if f["qn"].startswith("verif_rc::")]:
+        f = facts.functions.pop(k)
+        lst = facts.by_qn.get(f["qn"], [])
+        if f in lst:
+            lst.remove(f)
+        facts.controls[f["qn"]] = f
     facts.extract_s = time.time() - t0
     return facts
